@@ -14,11 +14,19 @@
   threads by this check on every run:
    * K1 dedupe window,  K2 tag ∥ delete of one pid,  K5 store rejected while the pid
      is being deleted.
-  Not proved: section-level linearizability of the lock-protected fragment.
+   * any number of concurrent `delete_object` calls on one pid are linearizable under
+     every schedule (`deletes_of_one_pid_serialise`, `…_linearizable`): all their work
+     lies between taking and releasing the pid in the object-pid class
+     (`Proofs/Serial.lean`: serialisation of bracketed threads). So concurrent deleters
+     never lose, duplicate or resurrect a reference among themselves.
+  Not proved: linearizability of mixes of store / tag / delete on shared identifiers
+  outside the refuted windows (tag_object releases two identifiers in its `finally`,
+  and store_object's in-progress test is not a wait).
 -/
 import HSModel.Proofs.ConcLemmas
 import HSModel.Proofs.LockLemmas
 import HSModel.Proofs.Shape
+import HSModel.Proofs.SerialSpec
 namespace HS.C07
 
 /-- a thread running alone from any of its scheduling points computes the
@@ -99,5 +107,71 @@ theorem k5_store_rejected_during_delete :
     k5.2 = 15 ∧ k5.1.allFinished = true ∧
     (k5.1.ts.map resOf)[1]? = some (some (.error .storeObjectInProgress)) ∧
     (k5.1.ts.map resOf)[0]? = some (some (.ok .unit)) := by decide
+
+/-! ### deleters of one pid -/
+
+/-- **Concurrent deletes of one pid serialise.** Any number of threads, each a
+    `delete_object(p)` call (or one rejected for its argument); any start world in
+    which `p` is not claimed in the object-pid class — any directory, any other
+    identifiers held, any fault plan —; any schedule, any step budget. When all
+    have returned, the world is exactly the one reached by running the calls whole,
+    one after the other, in some order, and each call returned what it returns in
+    that sequential run. -/
+theorem deletes_of_one_pid_serialise (cfg : Config) (o : Oracle) (p : Str) (calls : List Call)
+    (hc : ∀ x ∈ calls, DeletesPid p x) (w0 : World) (h0 : p ∉ w0.lk.objPid) (fuel : Nat) (sched : List Nat) :
+    let progs := calls.map (Call.tprog cfg o)
+    let fin := (runSchedule fuel { w := w0, ts := progs.map .fresh } sched 0).1
+    fin.allFinished = true →
+    ∃ order : List Nat, order.Nodup ∧ (∀ j, j ∈ order ↔ j < calls.length) ∧
+      fin.w = (seqRun progs order w0).1 ∧
+      ∀ (j : Nat) (t : TState), fin.ts[j]? = some t → ∃ v, t = TState.finished v ∧ (j, v) ∈ (seqRun progs order w0).2 := by
+  intro progs fin hall
+  have hb : ∀ q ∈ progs, q.Bracketed .objPid p := by
+    intro q hq
+    obtain ⟨x, hx, rfl⟩ := List.mem_map.mp hq
+    exact deletesPid_bracketed cfg o p x (hc x hx)
+  obtain ⟨order, h1, h2, h3, h4⟩ := serial_schedule .objPid p progs w0 hb (List.count_eq_zero.mpr h0) fuel sched hall
+  exact ⟨order, h1, fun j => by rw [h2 j]; simp [progs], h3, h4⟩
+
+/-- … and are linearizable with respect to the specification: from a directory
+    that simulates `a`, nothing claimed, no fault plan, there is an order in which
+    `Abs.step` returns exactly what the threads returned (one success and
+    not-found for the others, when `p` was bound) and the final directory
+    simulates its final state. -/
+theorem deletes_of_one_pid_linearizable (cfg : Config) (o : Oracle) (p : Str) (calls : List Call)
+    (hc : ∀ x ∈ calls, DeletesPid p x) (st : Store) (log : List Eff) (a : Abs) (hs : Sim o st a)
+    (ho : GoodOracle o) (fuel : Nat) (sched : List Nat) :
+    let fin := (runSchedule fuel { w := calm st log, ts := (calls.map (Call.tprog cfg o)).map .fresh } sched 0).1
+    fin.allFinished = true →
+    ∃ order : List Nat, order.Nodup ∧ (∀ j, j ∈ order ↔ j < calls.length) ∧
+      Sim o fin.w.st (specHist cfg o (pick calls order) a).2 ∧ fin.w.lk = {} ∧
+      ∀ (j : Nat) (t : TState), fin.ts[j]? = some t →
+        ∃ v, t = TState.finished v ∧ (j, v) ∈ order.zip (specHist cfg o (pick calls order) a).1 :=
+  linearizable_of_bracketed cfg o .objPid p calls
+    (fun x hx => deletesPid_bracketed cfg o p x (hc x hx))
+    (fun x hx => by
+      have := hc x hx
+      cases x <;> first | trivial | exact this.elim)
+    st log a hs ho fuel sched
+
+/-! the hypotheses are satisfiable: two deletes of a bound pid and one rejected
+    call, an interleaved schedule after which all have returned — one delete
+    succeeds, the other reports the pid unknown (a test on literals) -/
+def callsD : List Call := [.deleteObject p1, .deleteObject p1, .deleteObject (.str "a b".toList)]
+def serialDemo : Conf × Nat := runSchedule 1000
+  { w := wBound, ts := (callsD.map (Call.tprog cfgW oW)).map .fresh } (sched "12000000000000011") 0
+example : serialDemo.1.allFinished = true ∧ serialDemo.2 = 17 ∧
+    serialDemo.1.ts.map resOf = [some (.ok .unit), some (.error .pidRefsDoesNotExist), some (.error .valueError)] := by
+  decide
+example : ∀ x ∈ callsD, DeletesPid "p1".toList x := by
+  intro x hx
+  simp only [callsD, List.mem_cons, List.not_mem_nil, or_false] at hx
+  rcases hx with rfl | rfl | rfl
+  · intro q h; have : checkString p1 = .ok "p1".toList := by decide
+    rw [this] at h; cases h; rfl
+  · intro q h; have : checkString p1 = .ok "p1".toList := by decide
+    rw [this] at h; cases h; rfl
+  · intro q h; have : checkString (.str "a b".toList) = .error .valueError := by decide
+    rw [this] at h; cases h
 
 end HS.C07
